@@ -177,7 +177,9 @@ def run_case(case):
     zyh = [np.zeros_like(h) if mask[j] else h for j, h in enumerate(dyh)]
     want = ref(dyl, zyh)
     cmax = max([core.maxabs(dyl)] + [core.maxabs(h) for h in zyh])
-    tol = (64 * core.EPS32 if f32 else 1e-9) * max(g * cmax, 1e-300)
+    # with a column subset g can underestimate the operator norm: the scale is never below the largest reference value
+    scale_d = max(g * cmax, core.maxabs(want), 1e-300)
+    tol = (64 * core.EPS32 if f32 else 1e-9) * scale_d
     ok, out = call(dyl, dyh, True)
     if not ok:
         if any(mask):
@@ -200,7 +202,7 @@ def run_case(case):
                          % (mask, core.first_mismatch(dwtu.crop(got, size), dwtu.crop(want, size), tol)))
     else:
         okc, err = core.close(got, want, tol)
-        r.metric('dense_rel_err', err / max(g * cmax, 1e-300))
+        r.metric('dense_rel_err', err / scale_d)
         if not okc:
             mismatch('dense', 'dense pyramid differs from PyWavelets: ' +
                      core.first_mismatch(got, want, tol))
